@@ -220,3 +220,16 @@ Proof.
   intros H ND. destruct n as [|[|n]]; try lia. cbn in ND.
   inversion ND as [|? ? Hin _]; subst. apply Hin. left. reflexivity.
 Qed.
+
+(* ---- a chain continued from the returned core state is the longer chain ---- *)
+Lemma chain_run_app (St Smp : Type) (next : St -> Smp * St) n m st :
+  chain_run St Smp next (n + m) st =
+  (fst (chain_run St Smp next n st) ++ fst (chain_run St Smp next m (snd (chain_run St Smp next n st))),
+   snd (chain_run St Smp next m (snd (chain_run St Smp next n st)))).
+Proof.
+  revert st; induction n as [|n IH]; intro st; cbn [chain_run Nat.add].
+  - cbn. destruct (chain_run St Smp next m st); reflexivity.
+  - destruct (next st) as [x st1]. rewrite IH.
+    destruct (chain_run St Smp next n st1) as [xs st2]. cbn [fst snd].
+    destruct (chain_run St Smp next m st2) as [ys st3]. reflexivity.
+Qed.
